@@ -31,7 +31,7 @@ Definition ef_case (max_line : N) (bad : list str) (ps : list part) : string :=
    parser (independent of whether other lines fail), so that the driver can ask the real parser
    about each of them *)
 Definition ef_requests (ps : list part) : string :=
-  let texts := flat_map (fun seg => match parse_line str Some Some seg with
+  let texts := flat_map (fun seg => match file_line str Some Some seg with
                                     | Ok (Some t) => [t]
                                     | _ => []
                                     end) (split_incl (assemble ps)) in
